@@ -377,7 +377,7 @@ PROPS['C02'] = dict(
 )
 # C04: the receive-path mode joins the packet-half mode of the existing entry
 def is_recv_line(inp):
-    return inp.split(' ', 1)[0] in ('recv', 'tcpsock', 'probe')
+    return inp.split(' ', 1)[0] in ('recv', 'tcpsock', 'probe', 'sockerr')
 
 
 _c04_pkt = PROPS['C04']
@@ -473,4 +473,43 @@ PROPS['C03'] = dict(
     nontrivial=lambda inp, o: (o != 'fault:panic') if inp.startswith('tids ') else _c03['nontrivial'](inp, o),
     rule=_c03['rule'] + ' || trace identifiers of a multi-target run: the real assignment of start_tracers (hook) for EVERY process id 0..65535 at target indices '
          '{0..7, 15, 16, 255, 256, 1000, 32767, 65533, 65534}; oracle: no panic, no identifier zero, pairwise distinct; compared with Tui/TraceId.v',
+)
+
+
+# ---- C14 observes ProbeComplete.extensions in published rounds too: the strategy-level runs (responses with random
+# extension lists from routers and from the target) join the packet-level mode
+_c14 = PROPS['C14']
+PROPS['C14'] = dict(
+    _c14, modes=_c14['modes'] + [('hcore', 'run')],
+    compare=lambda inp, a, b: compare_run(inp, a, b) if inp.startswith('run ') else _c14['compare'](inp, a, b),
+    nontrivial=lambda inp, o: run_nontrivial(inp, o) if inp.startswith('run ') else _c14['nontrivial'](inp, o),
+    rule=_c14['rule'] + ' || published rounds: ' + RUN_RULE + ' Time Exceeded / Destination Unreachable responses carry random extension lists (MPLS stacks, unknown objects); oracle: the completed probe holds exactly the extensions of the genuine response',
+)
+# ---- C04: the strategy step that consumes a decoded response belongs to the receive path (sequence arithmetic on attacker-controlled values)
+_c04 = PROPS['C04']
+PROPS['C04'] = dict(
+    _c04, modes=_c04['modes'] + [('hcore', 'run'), ('hcore', 'tsops')],
+    compare=lambda inp, a, b: compare_any(inp, a, b) if inp.split(' ', 1)[0] in ('run', 'tsops') else _c04['compare'](inp, a, b),
+    nontrivial=lambda inp, o: any_nontrivial(inp, o) if inp.split(' ', 1)[0] in ('run', 'tsops') else _c04['nontrivial'](inp, o),
+    rule=_c04['rule'] + ' || the strategy step consuming the response (in_round / complete_probe arithmetic on the decoded sequence): ' + RUN_RULE + TSOPS_RULE + ' oracle: a panic anywhere in the loop',
+)
+# ---- C07: "the Dublin/IPv6 payload length derived from the sequence always fits the packet buffer" - the buffer is the one of
+# net/ipv6.rs dispatch: the Dublin/IPv6 lines of mode c11 (every payload length the strategy can produce) join
+_c07 = PROPS['C07']
+PROPS['C07'] = dict(
+    _c07, modes=_c07['modes'] + [('hcore', 'c11')],
+    compare=lambda inp, a, b: compare_c11(inp, a, b) if is_c11_line(inp) else _c07['compare'](inp, a, b),
+    nontrivial=lambda inp, o: c11_nontrivial(inp, o) if is_c11_line(inp) else _c07['nontrivial'](inp, o),
+    rule=_c07['rule'] + ' || the packet buffer itself: mode c11 (real Channel::send_probe), Dublin/IPv6 with every payload length 0..972',
+)
+
+
+# ---- C09: a fatal error of the RECEIVE socket must end the run: the socket-outcome lines of mode recv (select error, read error,
+# spurious wake-up, timeout through the real Channel::recv_probe) join
+_c09b = PROPS['C09']
+PROPS['C09'] = dict(
+    _c09b, modes=_c09b['modes'] + [('hcore', 'recv')],
+    compare=lambda inp, a, b: compare_recv(inp, a, b) if is_recv_line(inp) else _c09b['compare'](inp, a, b),
+    nontrivial=lambda inp, o: (inp.startswith('sockerr ') or recv_decoded(inp, o)) if is_recv_line(inp) else _c09b['nontrivial'](inp, o),
+    rule=_c09b['rule'] + ' || receive-socket outcomes through the real Channel::recv_probe for every cell: select error, read error, spurious wake-up, timeout (mode recv, sockerr lines); oracle: a socket error comes back as an error value',
 )
